@@ -1,7 +1,7 @@
 CONSTANTS
   Tier = "quick"
   Export = TRUE
-  Fams = {"hf", "hb", "rt"}
+  Fams = {"hf", "hb", "rt", "bulk", "tab", "ctrl", "tie", "wc"}
   SliceLo = 0
   SliceHi = 1023
 INIT Init
